@@ -1,8 +1,7 @@
 (* C27 oracle: compares the observed outcome of the real authenticators with Sec/Authn.v.
    DIFF  = implementation differs from the algorithm model (psk_authenticate / oidc_authenticate)
    PROP  = the property's own predicate is violated by the implementation's output
-   KNOWN = the model reproduces a listed finding (flag computed by the model's
-           flag_empty_alias / flag_empty_subject).
+   (no KNOWN verdicts: the two former findings are repaired in /repo by 8b29193).
    Trusted here: SHA-256 below (cross-checked on every pre-shared-key case against the digests
    Go computed for the configured keys) and the decoding of records. *)
 
@@ -159,21 +158,14 @@ let missing_fields (v : validity) : string =
       ("allowed-subject", v.vy_sub) ])
 
 (* the property's own predicate applied to an observed class *)
-let oidc_prop (cfg : oidc_cfg) (v : validity) (obs : int) : string =
+let oidc_prop (_cfg : oidc_cfg) (v : validity) (obs : int) : string =
   let acc = (obs = 0) in
   let lit = property_literal v in
-  if acc && not lit then begin
-    if flag_empty_alias v then
-      Printf.sprintf "KNOWN empty_alias_disables_issuer_check accepted with iss outside main+aliases%s"
-        (if flag_empty_subject v then " (and sub outside the configured subjects)" else "")
-    else if flag_empty_subject v then
-      "KNOWN empty_subject_disables_subject_check accepted with sub outside the configured subjects"
-    else "PROP accepted although the property requires: " ^ missing_fields v
-  end
+  if acc && not lit then
+    (* includes an acceptance through an empty alias / subject entry (repaired by 8b29193) *)
+    "PROP accepted although the property requires: " ^ missing_fields v
   else if (not acc) && lit && extra_ok v then
     Printf.sprintf "PROP rejected (class %d) although everything the property requires (and nbf / sub-type) holds" obs
-  else if acc && not (no_empty_entries cfg) && not (v.vy_iss_wild || v.vy_sub_wild) then
-    "DIFF no_empty_entries inconsistent"
   else "OK"
 
 let is_prefix p s = String.length s >= String.length p && String.sub s 0 (String.length p) = p
